@@ -215,6 +215,35 @@ def check(ctx):
             ok, why, chain = discharge_reduction(repo, s)
             ctx.ob("GRD-empty", s.fn, s.text, s.node, ok, why, chain=chain, clause="zero-row or zero-column shape never raises")
     ctx.count("partial-operation sites in the rendering call graph", n_sites, 3)
+    # DataFrame.modify raises ValueError for a non-callable value when the frame is GROUPED (grouped modify applies functions
+    # to the groups).  A renderer that replaces a column through modify(col=<value>) therefore fails for a grouped frame --
+    # a state every public group_by() produces -- unless it is known to be ungrouped there.
+    modify_fn = repo.functions.get(f"{DF}.modify")
+    raises_grouped = modify_fn is not None and any(
+        isinstance(r, ast.Raise) and any(k == "T" and "_group_colnames" in t for k, t in facts_at(modify_fn, r))
+        and any(k in ("T", "F") and "callable(" in t for k, t in facts_at(modify_fn, r)) for r in body_nodes(modify_fn.node))
+    n_mod = 0
+    if raises_grouped:
+        for q, f in sorted(reach.items()):
+            if f.parent is not None or f.cls is None or f.name not in ("to_string", "to_strings", "__str__", "__repr__", "print_"):
+                continue
+            for _, c in calls_in(f, False):
+                if not (isinstance(c.func, ast.Attribute) and c.func.attr == "modify" and c.keywords):
+                    continue
+                vals = [k.value for k in c.keywords if k.arg]
+                noncall = [v for v in vals if not isinstance(v, ast.Lambda) and not (isinstance(v, ast.Name) and v.id in f.nested)]
+                if not noncall:
+                    continue
+                n_mod += 1
+                recv = norm(c.func.value)
+                known_plain = any(k == "F" and t.endswith("._group_colnames") and recv in t or k == "T" and t == f"not {recv}._group_colnames"
+                                  for k, t in facts_at(f, c)) or ".ungroup()" in recv
+                ctx.ob("GRD-empty", f, norm(c)[:70], c, known_plain,
+                       "the frame is known to be ungrouped here" if known_plain else
+                       f"{norm(c)[:50]} hands modify() a value, not a function: for a grouped frame (after group_by) DataFrame.modify raises "
+                       f"ValueError('... argument not callable'), so str() / print_() of a grouped {f.cls.name} fails",
+                       clause="rendering never raises")
+    ctx.note(f"renderers replacing a column through modify(col=value): {n_mod}")
     # "".splitlines() is the EMPTY list: the first line of a cell is taken only where something on the path speaks about the
     # cell or its lines (a width or line-count test); an unconditional lines[0] fails for a blank cell
     from ..dataflow import defs_reaching as _dr20
